@@ -19,7 +19,8 @@ CLAIMED = {
              "block boundaries, 64 KiB, multi-byte/NUL/'.' content, special keys and nonce seeds; every call history (<= 4/5 calls) of one core "
              "builder object is executed and each minted token read back under a presentation matrix (CoreObj.tla, trace-validated); "
              "builder histories of MC_Builder are executed on all protocols and every built token must be readable by the matching parser "
-             "and, for PasetoBuilder, by PasetoParser::default().",
+             "and, for PasetoBuilder, by PasetoParser::default(); families c05b/c05g add set_footer / set_implicit_assertion histories with two values and the "
+             "empty string: the token must authenticate under the pair set last (FootBound / AssertBound).",
         ref="5 C01", tech="TLA+ token life-cycle model (TLC, exhaustive) + spec->impl replay with length/content sweep"),
     "C02": dict(
         text="As C01 for try_sign/try_verify (incl. core builder object histories and builder->parser round trips): RSA-2048 (4 fixture "
